@@ -184,7 +184,11 @@ def _observe_under(self: Exporter, node: Any, terminal: bool, has_keys: bool) ->
 	kind = 'terminal' if terminal else 'non-terminal'
 	cls = type(node).__mro__[1].__name__ if type(node).__name__ == 'Proxy' else type(node).__name__
 	self.under_stats[f"{kind}, {'properties yield nothing' if has_keys else 'no expandable property'}, _under_expand() {'NON-EMPTY' if under else 'empty'}: {cls}"] += 1
-	q = under_quiet(node)
+	try:
+		q = under_quiet(node)
+	except Exception as e:  # noqa: BLE001
+		self.under_stats[f'under_quiet raised {canon_exc(e)}'] += 1
+		return
 	if q is not None:
 		self.under_stats['under_empty_iff agrees with the real Nodes.expand' if q == (not under) else f'under_empty_iff DISAGREES at {cls}'] += 1
 
@@ -364,9 +368,11 @@ def run_synth_case(spec: dict[str, Any]) -> tuple[dict[str, Any], list[str], lis
 		lines.append(f'wf\t{slot_of[r]}')
 		w = real_wf(ids, root)
 		real.append(w)
-		if w != 'ok':
+		if w.startswith('raised'):
+			viol[w] += 1
+		elif w != 'ok':
 			for item in w.split(','):
-				for c in item.split(':', 1)[1].split('+'):
+				for c in item.split(':', 1)[-1].split('+'):
 					viol[c] += 1
 		lines.append(f'exec\t{slot_of[r]}')
 		real.append(real_exec(proc, root))
@@ -523,6 +529,14 @@ def run_real_case(rng: random.Random, name: str, ep: Any, kind: str) -> tuple[di
 		root_slot = ex.export(ep)
 	except Exception as e:  # noqa: BLE001 - a property getter of the node definitions raised: outside the procedure
 		return {'kind': kind, 'file': name, 'export_error': canon_exc(e), 'nodes': 0, 'classes': []}, [], []
+	try:
+		return _run_real_case_body(rng, name, ep, kind, ids, ex, root_slot)
+	except Exception as e:  # noqa: BLE001 - real code raised outside exec (can_expand / prop_keys / classification …): always a disagreement
+		return {'kind': kind, 'file': name, 'export_error': canon_exc(e), 'nodes': len(ex.positions), 'classes': []}, ['reset'], ['real code raised ' + canon_exc(e)]
+
+
+def _run_real_case_body(rng: random.Random, name: str, ep: Any, kind: str, ids: Ids, ex: Exporter, root_slot: int) -> tuple[dict[str, Any], list[str], list[str]]:
+	from rogw.tranp.semantics.procedure import Procedure
 	lines = ['reset', *ex.lines]
 	real = ['ok'] * len(lines)
 	proc: Any = Procedure()
@@ -1017,8 +1031,53 @@ def safe_wf(root: Any) -> list[tuple[str, str]]:
 		return [(type(root).__name__, f'wf-evaluation-raised:{canon_exc(e)}')]
 
 
+def tb_tail(e: BaseException) -> str:
+	import traceback
+	frames = traceback.extract_tb(e.__traceback__)
+	return ' <- '.join(f'{os.path.basename(f.filename)}:{f.lineno}:{f.name}' for f in frames[-4:][::-1])
+
+
+def alias_check(n: Any) -> tuple[str, str] | None:
+	"""`procedural()` must hand out a fresh list: callers append to it (procedure.py:85 `flatted.append(root)`,
+	ExpandModules), so a list shared with a memo (`Nodes.expand`, a property value) or between two calls is corrupted by use."""
+	cls = type(n).__mro__[1].__name__ if type(n).__name__ == 'Proxy' else type(n).__name__
+	a = n.procedural()
+	b = n.procedural()
+	if a is b:
+		return (f'procedural-shared-list:{cls}', f'{cls}.procedural() returns the same list object on every call (callers append the root to it)')
+	if n.can_expand:
+		try:
+			u = n._under_expand()
+		except Exception:  # noqa: BLE001 - proxies without an entry
+			u = None
+		if u is not None and (a is u or b is u):
+			return (f'procedural-aliases-expand-memo:{cls}', f'{cls}.procedural() returns the memoised list of Nodes.expand()/_under_expand() itself (callers append the root to it)')
+	for k in dict.fromkeys(declared_props(type(n))):
+		v = getattr(n, k)
+		if a is v or b is v:
+			return (f'procedural-aliases-property:{cls}.{k}', f'{cls}.procedural() returns the list object of property {k}')
+	if [x for x in a] != [x for x in b]:
+		return (f'procedural-unstable:{cls}', f'two calls of {cls}.procedural() differ')
+	return None
+
+
+def childless_roots(order: list[Any], limit: int) -> list[Any]:
+	"""Non-terminal visited nodes with nothing to expand (`[]`, `{}`, `()`, an empty module …): as exec roots their
+	flattening is the empty list — the boundary case of `procedural`."""
+	out = []
+	for n in order:
+		try:
+			if n.can_expand and not n.procedural():
+				out.append(n)
+		except Exception:  # noqa: BLE001 - reported when the node is used as a root
+			out.append(n)
+		if len(out) >= limit:
+			break
+	return out
+
+
 def check_tree_set(rng: random.Random, name: str, roots: list[Any], res: SearchResult, hist: Counter[str], notes: list[str],
-		source: str | None, must_hold: bool) -> None:
+		source: str | None, must_hold: bool, twice: int = 0) -> None:
 	"""The law on a set of trees sharing ONE Procedure: plain run, repeated run, run after failed runs (stale frames),
 	run with nested runs started from inside handler calls. `must_hold`: the trees are known to be processable
 	(real modules, well-formed synthetic trees) so any exception of the real code is a finding."""
@@ -1036,22 +1095,29 @@ def check_tree_set(rng: random.Random, name: str, roots: list[Any], res: SearchR
 				hist[f'property getter raised {canon_exc(e)}'] += 1
 				continue
 			visited = 0
-		if bad is None and mode == 1:
-			bad = run.fail_once(root, rng.randrange(visited)) or run.fail_once(root, visited - 1)
-			hist['history: run after failed runs on the same Procedure'] += 1
-		if bad is None and mode == 2 and len(roots) > 1:
-			others = [r for r in roots if r is not root] or roots
-			nest = {rng.randrange(visited): rng.choice(others) for _ in range(rng.randint(1, 3))}
-			bad = run.check(root, nest)
-			if bad is None and run.nested_bad:
-				bad = run.nested_bad[0]
-			run.nested_bad = []
-			hist['nested: runs started from inside handler calls'] += 1
-		if bad is None:
-			bad = run.check(root)
-		if bad is None and mode == 3:
-			bad = run.check(root)
-			hist['history: repeated run on the same Procedure'] += 1
+		try:
+			if bad is None:
+				bad = alias_check(root)
+				hist['aliasing: procedural() hands out a fresh list'] += 1
+			if bad is None and mode == 1:
+				bad = run.fail_once(root, rng.randrange(visited)) or run.fail_once(root, visited - 1)
+				hist['history: run after failed runs on the same Procedure'] += 1
+			if bad is None and mode == 2 and len(roots) > 1:
+				others = [r for r in roots if r is not root] or roots
+				nest = {rng.randrange(visited): rng.choice(others) for _ in range(rng.randint(1, 3))}
+				bad = run.check(root, nest)
+				if bad is None and run.nested_bad:
+					bad = run.nested_bad[0]
+				run.nested_bad = []
+				hist['nested: runs started from inside handler calls'] += 1
+			if bad is None:
+				bad = run.check(root)
+			if bad is None and (mode == 3 or n < twice):
+				bad = run.check(root)
+				hist['history: repeated run on the same Procedure'] += 1
+		except Exception as e:  # noqa: BLE001 - whatever the real code raised outside exec is a finding, never a harness crash
+			bad = (f'real-code-raises:{canon_exc(e)}', f'{canon_exc(e)} escaped from the real code while checking {type(root).__name__}: {tb_tail(e)}')
+			run = IdentityRun()
 		wf_bad = safe_wf(root)
 		hist['trees ok' if not bad else 'trees violating'] += 1
 		for cls, c in wf_bad:
@@ -1101,20 +1167,27 @@ def search_identity(ctx: Ctx, real_descs: list[dict[str, Any]], gen_descs: list[
 	for d in gen_descs:
 		if d.get('wf', 'ok') != 'ok' or d.get('unstable') or d.get('export_error'):
 			sources.append((d['file'], d['source'], False))
+	for i, b in enumerate(['', '# only a comment', 'a = []', 'a = {}\nb = ()\nc = [[], {}]', 'def f() -> None:\n\tx = []\n\treturn', 'class A:\n\tv: list[int] = []']):
+		sources.insert(i, (f'boundary#{i}', b, True))
 	for name, src, must_hold in sources:
 		ep = load_entrypoint(app, src)
 		if ep is None:
 			hist['outside grammar'] += 1
 			continue
 		roots = [ep]
+		nchildless = 0
 		try:
 			order, _ = spec_walk(ep)
 			inner = [n for n in order if n.can_expand and n.prop_keys() and n is not ep]
-			roots.extend(rng.sample(inner, min(len(inner), 5)))
+			# boundary roots first (each run twice), then the module (an exec of the whole after execs of parts), then inner roots
+			boundary = [n for n in childless_roots(order, 3) if n is not ep]
+			nchildless = len(boundary)
+			roots = [*boundary, ep, *rng.sample(inner, min(len(inner), 5))]
 		except Exception:  # noqa: BLE001 - reported by check_tree_set
 			order = []
 		seen.add(name)
-		check_tree_set(rng, name, roots, res, hist, ctx.notes, src if name.startswith('generated') else None, must_hold)
+		hist['boundary roots: non-terminal nodes with nothing to expand, run twice'] += nchildless
+		check_tree_set(rng, name, roots, res, hist, ctx.notes, src if name.startswith(('generated', 'boundary')) else None, must_hold, twice=nchildless + 1)
 		if len(res.samples) < 2:
 			res.samples.append({'source': name, 'visited': len(order), 'roots': len(roots)})
 	# well-formed synthetic shapes (several list properties, empty lists, shared node objects, deep chains)
@@ -1291,9 +1364,12 @@ def search_semantic(ctx: Ctx) -> SearchResult:
 		roots = [ep] + [n for n in order if type(n).__name__ in ('Class', 'Method', 'Constructor', 'Function') and n is not ep][:ctx.scale(6 if generated else 3, 40)]
 		for n, root in enumerate(roots):
 			res.cases += 1
-			bad = run.check(root)
-			if bad is None and n == 0 and (generated or ctx.thorough):
-				bad = run.check(root)  # once more on the same Procedure, the services now warm
+			try:
+				bad = run.check(root)
+				if bad is None and n == 0 and (generated or ctx.thorough):
+					bad = run.check(root)  # once more on the same Procedure, the services now warm
+			except Exception as e:  # noqa: BLE001
+				bad = (f'real-code-raises:{canon_exc(e)}', f'{canon_exc(e)} escaped from the real code while checking {type(root).__name__}: {tb_tail(e)}')
 			hist['trees ok' if not bad else 'trees violating'] += 1
 			if bad:
 				key, what = bad
@@ -1381,13 +1457,16 @@ def stream_propkeys_synth(ctx: Ctx) -> Stream:
 	rng = ctx.sub_rng('propkeys-synth')
 	cases = []
 	for _ in range(ctx.scale(150, 2000)):
-		classes = gen_class_table(rng)
-		lines, ids = class_table_lines(classes)
-		order = [rng.choice(list(ids)) for _ in range(2 * len(ids))]
-		ql, qr = pk_queries(ids, order)
-		same_name = any(b.__name__ == c.__name__ for c in classes for b in c.__mro__[1:])
-		wrong = any(r != ','.join(declared_props(c)) and not r.startswith('raised') and (r != '-' or declared_props(c)) for c, r in zip(order, qr))
-		cases.append(({'classes': len(classes), 'same_name_on_mro': same_name, 'history_dependent': wrong}, lines + ql, ['ok'] * len(lines) + qr))
+		try:
+			classes = gen_class_table(rng)
+			lines, ids = class_table_lines(classes)
+			order = [rng.choice(list(ids)) for _ in range(2 * len(ids))]
+			ql, qr = pk_queries(ids, order)
+			same_name = any(b.__name__ == c.__name__ for c in classes for b in c.__mro__[1:])
+			wrong = any(r != ','.join(declared_props(c)) and not r.startswith('raised') and (r != '-' or declared_props(c)) for c, r in zip(order, qr))
+			cases.append(({'classes': len(classes), 'same_name_on_mro': same_name, 'history_dependent': wrong}, lines + ql, ['ok'] * len(lines) + qr))
+		except Exception as e:  # noqa: BLE001 - Meta.embed / prop_keys machinery raised: a disagreement, not a crash
+			cases.append(({'classes': 0, 'same_name_on_mro': False, 'history_dependent': False}, ['pk.reset'], ['real code raised ' + canon_exc(e)]))
 	st = common.correspond('propkeys-synth', cases, 'proc',
 		classify=lambda d: f"same-name-on-mro={d['same_name_on_mro']} history-dependent-answer={d['history_dependent']}")
 	st.note = 'synthetic Node subclass tables (diamonds, recurring names/paths, redeclared properties): real prop_keys() under random call orders vs Model/PropKeys.query on the exported table; pk.pure vs metadata read'
@@ -1434,6 +1513,17 @@ def query_order(mode: str, seed: int) -> list[type]:
 
 
 def worker_main() -> None:
+	"""Entry of the fresh process: whatever escapes becomes a finding of the parent, never a silent death."""
+	import sys
+	import traceback
+	try:
+		_worker_body()
+	except Exception as e:  # noqa: BLE001
+		json.dump({'findings': [{'key': f'worker-raised:{canon_exc(e)}', 'what': f'the fresh-process oracle died with {canon_exc(e)}: {tb_tail(e)}',
+			'replay': {'traceback': traceback.format_exc()[-3000:]}}], 'hist': {'worker raised': 1}, 'pk_lines': ['pk.reset'], 'pk_real': ['worker raised ' + canon_exc(e)]}, sys.stdout)
+
+
+def _worker_body() -> None:
 	"""Fresh process: query prop_keys() on the node classes in a given order, then check every class against its declared
 	properties and run the identity-valued oracle on the given sources. Reads a JSON job on stdin, writes JSON on stdout."""
 	import sys
@@ -1487,12 +1577,21 @@ def worker_main() -> None:
 			try:
 				walk, _ = spec_walk(ep)
 				inner = [n for n in walk if n.can_expand and declared_props(type(n)) and n is not ep]
-				roots += random.Random(f'{name}:{job["seed"]}').sample(inner, min(len(inner), 3))
-			except Exception:  # noqa: BLE001 - reported by check()
-				pass
+				roots = [*[n for n in childless_roots(walk, 2) if n is not ep], ep, *random.Random(f'{name}:{job["seed"]}').sample(inner, min(len(inner), 3))]
+			except Exception as e:  # noqa: BLE001
+				if not job['must_hold'].get(name, False):
+					hist['property getter raised (program outside the supported subset)'] += 1
+					continue
+				findings.append({'key': f'getter-raises:{canon_exc(e)}', 'what': f'a property getter raised {canon_exc(e)}: {tb_tail(e)} [{name}; prop_keys() queried first in order {job["mode"]}]',
+					'replay': {'source_name': name, 'source': src, 'mode': 'prop-keys-history', 'order_mode': job['mode'], 'order_seed': job['seed']}})
+				continue
 			for root in roots:
 				hist['trees'] += 1
-				bad = run.check(root)
+				try:
+					bad = alias_check(root) or run.check(root) or run.check(root)
+				except Exception as e:  # noqa: BLE001
+					bad = (f'real-code-raises:{canon_exc(e)}', f'{canon_exc(e)} escaped from the real code while checking {type(root).__name__}: {tb_tail(e)}')
+					run = IdentityRun()
 				if bad and bad[0].startswith('getter-raises') and not job['must_hold'].get(name, False):
 					hist['property getter raised (program outside the supported subset)'] += 1
 					break
@@ -1513,9 +1612,14 @@ def run_worker(job: dict[str, Any]) -> dict[str, Any]:
 	env['PYTHONPATH'] = os.pathsep.join([os.path.join(common.VERIF, 'compat'), common.REPO, common.VERIF])
 	env['PYTHONDONTWRITEBYTECODE'] = '1'
 	rc, out, err = common.run_cmd([sys.executable, '-c', 'from harness import c09; c09.worker_main()'], common.REPO, 600, input_text=json.dumps(job), env=env)
-	if rc != 0:
-		raise common.InfraError(f'C09 worker failed (mode {job["mode"]}): {err[-1500:]}')
-	return json.loads(out)
+	try:
+		if rc != 0:
+			raise ValueError(f'exit code {rc}')
+		return json.loads(out)
+	except ValueError as e:
+		# a worker that dies (segfault, recursion in the interpreter, os._exit …) is a finding with its stderr tail
+		return {'findings': [{'key': 'worker-died', 'what': f'the fresh-process oracle (order {job["mode"]}) died: {e}; stderr tail: {err[-800:]}',
+			'replay': {'stderr': err[-3000:], 'sources': [n for n, _ in job['sources']]}}], 'hist': {'worker died': 1}, 'pk_lines': ['pk.reset'], 'pk_real': [f'worker died: {e}']}
 
 
 PK_REAL_CASES: list[tuple[Any, list[str], list[str]]] = []
@@ -1541,6 +1645,9 @@ def search_prop_keys_history(ctx: Ctx) -> SearchResult:
 			must_hold[f] = True
 		sources.append(['generic', generic_program(rng)])
 		must_hold['generic'] = True
+		for i, b in enumerate(['', 'a = []', 'a = {}\nb = ()']):
+			sources.append([f'boundary#{i}', b])
+			must_hold[f'boundary#{i}'] = True
 		for i in range(ctx.scale(6, 30)):
 			sources.append([f'generated#{i}', gen.program()])
 		out = run_worker({'mode': mode, 'seed': seed, 'sources': sources, 'must_hold': must_hold})
@@ -1624,23 +1731,63 @@ STATEMENTS = {
 }
 
 
+def guarded_stream(name: str, fn: Any) -> Any:
+	"""A stream function that raises (real code or harness) yields a broken stream, not exit 2."""
+	try:
+		return fn()
+	except common.InfraError:
+		raise
+	except Exception as e:  # noqa: BLE001
+		st = Stream(name, cases=1)
+		st.disagreements.append({'case': 'stream raised', 'op': '-', 'real': f'{canon_exc(e)}: {tb_tail(e)}', 'model': '-'})
+		return st
+
+
+def guarded_search(name: str, fn: Any) -> SearchResult:
+	try:
+		return fn()
+	except common.InfraError:
+		raise
+	except Exception as e:  # noqa: BLE001
+		import traceback
+		res = SearchResult(name, cases=1)
+		res.findings.append(Finding(key=f'search-raised:{name}:{canon_exc(e)}', what=f'{canon_exc(e)} escaped while running the oracle: {tb_tail(e)}',
+			replay={'traceback': traceback.format_exc()[-3000:]}))
+		return res
+
+
 def run(ctx: Ctx) -> int:
 	proof = common.prove(ctx, PROP, leanchecker=ctx.thorough)
 	with ctx.timed('search_prop_keys_history'):
 		# fresh processes; also yields the real class table and the real prop_keys() answers for the propkeys-real stream
-		s3 = search_prop_keys_history(ctx)
+		s3 = guarded_search('prop-keys-history', lambda: search_prop_keys_history(ctx))
+	real_descs: list[dict[str, Any]] = []
+	gen_descs: list[dict[str, Any]] = []
+
+	def _real() -> Stream:
+		st, d = stream_real(ctx)
+		real_descs.extend(d)
+		return st
+
+	def _gen() -> Stream:
+		st, d = stream_generated(ctx)
+		gen_descs.extend(d)
+		return st
+
+	def _pk() -> Stream:
+		st = common.correspond('propkeys-real', PK_REAL_CASES, 'proc', classify=lambda d: f"order {d['order']}")
+		st.note = 'real class table (every node class + Node: name, metadata path, MRO, expandable names) and real prop_keys() answers under several call orders, each in a fresh process, vs Model/PropKeys.query; pk.pure vs metadata read'
+		return st
 	with ctx.timed('correspondence'):
-		s_real, real_descs = stream_real(ctx)
-		s_gen, gen_descs = stream_generated(ctx)
-		s_pk = common.correspond('propkeys-real', PK_REAL_CASES, 'proc', classify=lambda d: f"order {d['order']}")
-		s_pk.note = 'real class table (every node class + Node: name, metadata path, MRO, expandable names) and real prop_keys() answers under several call orders, each in a fresh process, vs Model/PropKeys.query; pk.pure vs metadata read'
-		streams = [stream_corpus(ctx), stream_synth(ctx, False), stream_synth(ctx, True), s_real, s_gen, stream_propkeys_synth(ctx), s_pk]
+		streams = [guarded_stream('proc-corpus', lambda: stream_corpus(ctx)), guarded_stream('proc-synth', lambda: stream_synth(ctx, False)),
+			guarded_stream('proc-malformed', lambda: stream_synth(ctx, True)), guarded_stream('proc-real', _real), guarded_stream('proc-generated', _gen),
+			guarded_stream('propkeys-synth', lambda: stream_propkeys_synth(ctx)), guarded_stream('propkeys-real', _pk)]
 	with ctx.timed('search'):
 		with ctx.timed('search_identity'):
-			s1 = search_identity(ctx, real_descs, gen_descs)
+			s1 = guarded_search('identity', lambda: search_identity(ctx, real_descs, gen_descs))
 		with ctx.timed('search_semantic'):
-			s2 = search_semantic(ctx)
-		searches = [s1, s2, s3, search_nested_catch(ctx)]
+			s2 = guarded_search('semantic', lambda: search_semantic(ctx))
+		searches = [s1, s2, s3, guarded_search('nested-catch', lambda: search_nested_catch(ctx))]
 	return common.finish(ctx, proof, streams, searches,
 		statements=STATEMENTS,
 		partial={
